@@ -230,6 +230,76 @@ theorem keptPhases_some {vars : List VarInfo} {pos : Nat} {info : VarInfo}
 theorem isAlready_of_infoAt {vars : List VarInfo} {pos : Nat} {info : VarInfo} (h : infoAt vars pos = some info) :
     isAlready vars pos = alreadyPhased info := by simp [isAlready, h]
 
+
+/-! ## positions no voting read covers -/
+
+theorem voteVariants_lookup_other {vars : List VarInfo} {pos : Nat} {ps : Int} {ht : Nat} :
+    ∀ (vs : List RV) (votes votes' : Votes), (∀ v ∈ vs, v.pos ≠ pos) →
+      voteVariants vars ps ht votes vs = .ok votes' → votes'.lookup pos = votes.lookup pos := by
+  intro vs
+  induction vs with
+  | nil => intro votes votes' _ h; simp [voteVariants] at h; subst h; rfl
+  | cons v vs ih =>
+    intro votes votes' hv h
+    simp only [voteVariants] at h
+    cases h1 : voteVariant vars ps ht votes v with
+    | error e => simp [h1] at h
+    | ok v1 =>
+      simp only [h1] at h
+      have hrest := ih v1 votes' (fun w hw => hv w (List.mem_cons_of_mem _ hw)) h
+      rw [hrest]
+      have hne : pos ≠ v.pos := fun e => hv v List.mem_cons_self e.symm
+      unfold voteVariant at h1
+      cases hi : infoAt vars v.pos with
+      | none => simp [hi] at h1
+      | some info =>
+        simp only [hi] at h1
+        split at h1
+        · injection h1 with h1; subst h1; rfl
+        · cases ha : alleleId info.gt v.allele with
+          | none => simp [ha] at h1
+          | some id =>
+            simp only [ha] at h1
+            cases hva : voteAt v.pos ps (ht ^^^ id) v.qual votes with
+            | none => simp [hva] at h1
+            | some v2 =>
+              simp only [hva] at h1
+              injection h1 with h1
+              subst h1
+              exact lookup_voteAt_other hne hva
+
+/-- a position that no voting read covers has no entry in the vote table -/
+theorem computeVotes_uncovered {vars : List VarInfo} {pos : Nat} :
+    ∀ (reads : List TRead) (votes votes' : Votes), covered pos reads = false →
+      computeVotes vars votes reads = .ok votes' → votes'.lookup pos = votes.lookup pos := by
+  intro reads
+  induction reads with
+  | nil => intro votes votes' _ h; simp [computeVotes] at h; subst h; rfl
+  | cons r rs ih =>
+    intro votes votes' hc h
+    simp only [covered, List.any_cons, Bool.or_eq_false_iff] at hc
+    simp only [computeVotes] at h
+    cases h1 : voteRead vars votes r with
+    | error e => simp [h1] at h
+    | ok v1 =>
+      simp only [h1] at h
+      rw [ih v1 votes' (by simpa [covered] using hc.2) h]
+      unfold voteRead at h1
+      simp only at h1
+      split at h1
+      · injection h1 with h1; subst h1; rfl
+      · split at h1
+        · injection h1 with h1; subst h1; rfl
+        · rename_i h2 h3
+          have hvote : voting r = true := by
+            simp only [voting, Bool.and_eq_true, decide_eq_true_eq]
+            omega
+          have hnc : ∀ v ∈ r.variants, v.pos ≠ pos := by
+            have := hc.1
+            simp only [hvote, Bool.true_and, List.any_eq_false, beq_iff_eq] at this
+            exact this
+          exact voteVariants_lookup_other r.variants votes v1 hnc h1
+
 /-! ## the loops -/
 
 theorem samplesLoop_mem {opts : Opts} {bamSamples : List String} {c : ChromIn} {ref : Array Char} :
@@ -282,5 +352,35 @@ theorem chromLoop_mem {opts : Opts} {samples bamSamples : List String} :
         · exact ⟨o, List.mem_cons_self, ho⟩
         · obtain ⟨o', h1, h2⟩ := ih os hr c hc'
           exact ⟨o', List.mem_cons_of_mem _ h1, h2⟩
+
+/-! ## decidable forms of the hypotheses (for examples) -/
+
+def errorFreeB (info : PhaseInfo) (τ : Nat) (rvs : List RV) : Bool :=
+  rvs.all fun w => match info.lookup w.pos with
+    | some (_, [x0, x1]) => x0 != x1 && [x0, x1][τ]? == some w.allele
+    | _ => false
+
+theorem errorFree_of_B {info : PhaseInfo} {τ : Nat} {rvs : List RV} (h : errorFreeB info τ rvs = true) :
+    ErrorFree info τ rvs := by
+  intro w hw
+  simp only [errorFreeB, List.all_eq_true] at h
+  have := h w hw
+  split at this
+  · rename_i ps x0 x1 hl
+    simp only [Bool.and_eq_true, bne_iff_ne, ne_eq, beq_iff_eq] at this
+    exact ⟨ps, x0, x1, hl, this.1, this.2⟩
+  · cases this
+
+def oneSetB (info : PhaseInfo) (P : Int) (rvs : List RV) : Bool :=
+  rvs.all fun w => match info.lookup w.pos with
+    | some (ps, _) => ps == P
+    | none => true
+
+theorem oneSet_of_B {info : PhaseInfo} {P : Int} {rvs : List RV} (h : oneSetB info P rvs = true) : OneSet info P rvs := by
+  intro w hw ps ph hl
+  simp only [oneSetB, List.all_eq_true] at h
+  have := h w hw
+  rw [hl] at this
+  simpa using this
 
 end WhVerif.C17
